@@ -165,6 +165,20 @@ def check_with(case, kind: str, skind: str) -> list[tuple[str, str]]:
             return [(f"encode-alone-raised:{K.exc_signature(e)}", f"{cd.path}: {e!r}")]
     expected = lead + b"".join(alone) + trail
     out = []
+    # ---- in one case of three an EARLIER connection dies first: the first message is written to a write-only sink that
+    # raises at its k-th write.  What precedes a conversation - including a failed one on another stream - must not matter.
+    if (len(lead) + len(trail) + len(ents)) % 3 == 0 and ents:
+        from ..streams import FaultySink, InjectedFault
+
+        cd0, x0 = ents[0]
+        try:
+            K.entity_writer(cd0.cls)(FaultySink(len(lead) % 4, InjectedFault("earlier connection reset")), x0)
+        except InjectedFault:
+            pass
+        except StreamProtocolViolation as e:
+            return [(f"sink-protocol:{str(e).split('(')[0].split(' ')[0]}", f"faulty write-only sink: {e}")]
+        except Exception as e:
+            return [(f"write-raised:faulty-writeonly:{K.exc_signature(e)}", f"{cd0.path}: {e!r}")]
     # ---- writing through the drawn sink kind
     loop = None
     socks: list = []
